@@ -152,6 +152,14 @@ func (vc *VC) loopHead(fr *Frame, blk *ssa.BasicBlock, ins []*Edge, name string)
 		if strings.Contains(k, "$rangeindex$") {
 			// hidden index of a range loop: starts at -1 and is only incremented while below the length (SSA construction)
 			n.assume(sAnd(app("<=", "(- 1)", nv), app("<=", nv, maxLen)))
+			// ... and it never passes the length the loop compares against (computed before the loop)
+			if iff, ok := blk.Instrs[len(blk.Instrs)-1].(*ssa.If); ok {
+				if cmp, ok := iff.Cond.(*ssa.BinOp); ok && cmp.Op == token.LSS {
+					if lt, ok := fr.regs[cmp.Y]; ok {
+						n.assume(sOr(sEq(nv, "(- 1)"), app("<", nv, lt)))
+					}
+				}
+			}
 		}
 	}
 	// alloc only grows
@@ -1079,12 +1087,11 @@ func (vc *VC) execConvert(fr *Frame, n *Node, c *ssa.Convert) {
 	case isFloat(from) && isFloat(to):
 		fr.regs[c] = x
 	case isString(to) && isByteSlice(from):
-		m := vc.memMap(types.Typ[types.Byte])
+		// string(b) and the abstract content bstr(b) are the same identity
 		r := vc.fresh(fr.prefix+"."+c.Name(), "Int")
-		n.assume(sEq(r, app("str.ofbytes_", app("select", vc.cur(n.env, m.Name), app("s.arr", x)), app("s.off", x), app("s.len", x))))
+		n.assume(sEq(r, vc.bstrUse(n, x, n.env)))
 		n.assume(sEq(app("str.len_", r), app("s.len", x)))
 		fr.regs[c] = r
-		vc.bstrUse(n, x, n.env)
 	case isByteSlice(to) && isString(from):
 		arr := vc.newRef(n, "s2b")
 		r := vc.fresh(fr.prefix+"."+c.Name(), "Slice")
@@ -1136,6 +1143,7 @@ func (vc *VC) execTypeAssert(fr *Frame, n *Node, ta *ssa.TypeAssert) {
 		// interface-to-interface: holds iff dynamic type implements; abstract as UF of tag
 		fnm := "impl$" + typeName(ta.AssertedType)
 		vc.declareFun(fnm, []string{"Int"}, "Bool")
+		vc.implIfaces[fnm] = ta.AssertedType.Underlying().(*types.Interface)
 		okf = sAnd(sNot(sEq(app("i.tag", x), "0")), app(smtName(fnm), app("i.tag", x)))
 		val = x
 		// known concrete tags
